@@ -384,6 +384,17 @@ def r5_sibling_drivers(cx):
     ser = [c for c in find_calls(ra.body, attr="run_incremental")]
     ok = bool(ser) and isinstance(parent(ser[0]), ast.Call) and call_name(parent(ser[0])) == "list"
     cx.require(ok, ser[0] if ser else ra, "the serial arm exhausts run_incremental", construct=short(parent(ser[0])) if ser else "(no run_incremental call)")
+    # the two arms exclude each other: once a sub-graph was handed to the pool, no path of the same call (a fallback after a failed submit, a retry)
+    # evaluates the components serially as well - the submitted sub-graphs are neither cancelled nor awaited and would be attempted twice
+    if subs and ser:
+        from ..cfg import CFG
+        g = CFG(ra)
+        a, b = g.stmt_node_containing(subs[0]), g.stmt_node_containing(ser[0])
+        if a is None or b is None:
+            cx.unknown(ra, "cannot place the pooled submission / the serial evaluation in the flow graph of run_all")
+        else:
+            cx.require(b not in g.reachable(a), ser[0], "no path of run_all both submits sub-graphs to the pool and evaluates serially (also not after an exception)",
+                       construct="%s ... %s" % (short(subs[0], 40), short(ser[0], 50)))
 
 
 STRICT = [(DR, "run_components"), (DR, "ComponentType.invoke"), (DR, "ComponentType.process"), (DR, "ComponentType.get_missing_dependencies"),
@@ -500,4 +511,9 @@ def run(cx):
     # who attributes an exception to which registry point must not depend on which driver asked first (memo with an incomplete key: C03.R3)
     from . import c03
     cx.borrow(c03.r3b_registry_points_not_memoised_partially, "C03.R3", "C04.R5", "single-pass, incremental and pooled drivers evaluate each sub-graph through dr.run with its own broker")
+    # what keeps the sub-graphs disjoint at run time is the 'member of this graph' conjunct of the execution guard (toposort also lists dependencies
+    # that are not keys of the graph): without it a shared outside dependency is evaluated once per sub-graph.  C01.R1 / C02.R5 re-checked.
+    from . import c02
+    cx.borrow(c01.r1_run_guard, "C01.R1", "C04.R5", "single-pass, incremental and pooled drivers evaluate each sub-graph through dr.run with its own broker")
+    cx.borrow(c02.r5b_nothing_else_suppresses, "C02.R5b", "C04.R5", "single-pass, incremental and pooled drivers evaluate each sub-graph through dr.run with its own broker")
     cx.guard(r6_set_iteration, kinds, mods)
